@@ -421,6 +421,11 @@ func (symbol *compositeEntitySetSymbol) GetType() ast.NodeType {
 }
 
 func (symbol *compositeEntitySetSymbol) Eval(tx *bbolt.Tx, _ []byte) (FieldType, []byte) {
+	// the symbol only has a value while its cursor is being iterated. It can be evaluated without one, for example
+	// when it is used like a plain field inside a sub-query or as the subject of a null test
+	if symbol.cursor == nil {
+		return TypeNil, nil
+	}
 	return symbol.cursorLastF(tx, symbol.cursor.key)
 }
 
